@@ -405,8 +405,8 @@ let () =
                        cf_dns0x20 = List.mem "dns0x20" cfg.flags } in
           (* the fuel: Lifecycle_fuel_top.run_fuel_sufficient shows that fuel_bound (20 x (4 x tape events +
              sizes of the calls) + 10) is never exhausted, so "out of fuel" is not among the ways the
-             model can stop *)
-          let fuel = fuel_bound (List.filter_map (fun (inp, tape, _) -> match inp with Some i -> Some (i, tape) | None -> None) segs)
+             model can stop; fuel_bound_tr is the same number (fuel_bound_tr_eq) computed tail-recursively *)
+          let fuel = fuel_bound_tr (List.filter_map (fun (inp, tape, _) -> match inp with Some i -> Some (i, tape) | None -> None) segs)
                                 (match final with Some t -> t | None -> []) in
           (* step by step, to name the operation at which model and implementation part *)
           let st = ref (init_state mcfg) in
